@@ -10,7 +10,9 @@ import ipaddress
 import bromdict
 import gen_dict
 
-STRINGS = ["", "a", "ab", "abc", "abcd", "host.example.com", "realm", "épc.mnc001", "日本", "x" * 17, "€5", "A-b_c.d"]
+STRINGS = ["", "a", "ab", "abc", "abcd", "host.example.com", "realm", "épc.mnc001", "日本", "x" * 17, "€5", "A-b_c.d",
+           # text that is not in Unicode normal form, compatibility characters, mixed case, surrounding blanks: carried as given
+           "Jose\u0301", "\u212b", "\u1100\u1161", "\ufb01x", "MiXeD.Example.COM", " padded ", "tab\there", "\u00e9\u0301"]
 U32 = [0, 1, 2, 255, 256, 65535, 65536, 2 ** 24 - 1, 2 ** 24, 2 ** 31 - 1, 2 ** 31, 2 ** 32 - 2, 2 ** 32 - 1, 10415, 16777251]
 U64 = [0, 1, 2 ** 32 - 1, 2 ** 32, 2 ** 53, 2 ** 63 - 1, 2 ** 63, 2 ** 64 - 1]
 V4 = ["0.0.0.0", "10.129.241.235", "127.0.0.1", "255.255.255.255", "192.168.0.1", "1.2.3.4"]
